@@ -295,6 +295,25 @@ class FieldSpec:
         self.has_default = has_default
 
 
+class LogList(list):
+    """A fixed-length list with symbolic-index writes kept as a write log (array theory by read-over-write) instead
+    of 32 element-wise ite's.  Storage (the list itself) holds the base elements; `log` holds later writes
+    (index int|Term, value) oldest first; `uf` names an uninterpreted function for symbolic-index reads of the base."""
+
+    def __init__(self, items, uf=None, wrap=None, lo=None, hi=None):
+        list.__init__(self, items)
+        self.log = []
+        self.uf = uf
+        self.wrap = wrap
+        self.lo = lo
+        self.hi = hi
+
+    def clone(self):
+        c = LogList(list.__iter__(self), self.uf, self.wrap, self.lo, self.hi)
+        c.log = list(self.log)
+        return c
+
+
 class UF:
     """Base of a symbolic map: value function + presence predicate."""
     __slots__ = ("name", "lo", "hi", "wrap", "total")
